@@ -73,6 +73,12 @@ type c15Case struct {
 	Concurrent []c15Op    `json:"concurrent"` // sent while the reset is issued
 	Reset      int        `json:"reset"`      // 0 both/all, 1 out then in, 2 in then out, 3 in + ROUTE-REFRESH from the targets, 4 per-peer both
 	Sched      uint64     `json:"sched"`
+	// Incremental: the new program is the old one with entries appended to its prefix sets, and the
+	// change is made with AddDefinedSet (no replace) instead of SetPolicies
+	Incremental bool `json:"incremental"`
+	// StaleSource: source peer 0 negotiates graceful restart and loses its transport after its
+	// announcements, so its routes are retained as stale when the policy changes
+	StaleSource bool `json:"stale_source"`
 }
 
 var c15Prefixes = []string{"10.100.0.0/24", "10.100.1.0/24", "10.100.128.0/17", "10.200.0.0/16", "10.200.5.0/24", "192.168.7.0/24"}
@@ -137,6 +143,15 @@ func drawC15(t *rapid.T) c15Case {
 		return p
 	}
 	c.Old, c.New = prog("old"), prog("new")
+	c.Incremental = rapid.IntRange(0, 3).Draw(t, "incremental") == 0
+	if c.Incremental {
+		c.New.Import, c.New.Export = c.Old.Import, c.Old.Export
+		for i := range c.New.PrefixSets {
+			extra := c.New.PrefixSets[i]
+			c.New.PrefixSets[i] = append(append([]string{}, c.Old.PrefixSets[i]...), extra...)
+		}
+	}
+	c.StaleSource = rapid.IntRange(0, 3).Draw(t, "stale_source") == 0
 	route := func(l string) c15Route {
 		r := c15Route{Src: rapid.IntRange(0, 1).Draw(t, l+"src"), Prefix: rapid.IntRange(0, len(c15Prefixes)-1).Draw(t, l+"p"), Variant: rapid.IntRange(0, 3).Draw(t, l+"v"), Comm: -1}
 		if rapid.Bool().Draw(t, l+"c") {
@@ -150,6 +165,9 @@ func drawC15(t *rapid.T) c15Case {
 	for i, n := 0, rapid.SampledFrom([]int{0, 0, 1, 2, 3}).Draw(t, "nconc"); i < n; i++ {
 		l := fmt.Sprintf("c%d", i)
 		c.Concurrent = append(c.Concurrent, c15Op{Withdraw: rapid.IntRange(0, 2).Draw(t, l+"w") == 0, Route: route(l)})
+	}
+	if c.StaleSource {
+		c.Concurrent = nil
 	}
 	c.Reset = rapid.IntRange(0, 4).Draw(t, "reset")
 	if rapid.IntRange(0, 2).Draw(t, "sched_on") != 0 {
@@ -296,7 +314,7 @@ func (r *c15Run) setPolicy(p *c15Program) error {
 	return nil
 }
 
-func c15Start(p *c15Program) (*c15Run, error) {
+func c15Start(p *c15Program, staleSource bool) (*c15Run, error) {
 	g := rsApiGlobal(rsGlobal{})
 	// the decision between equal external paths must not depend on arrival order (the two runs differ in it)
 	g.RouteSelectionOptions = &api.RouteSelectionOptionsConfig{ExternalCompareRouterId: true}
@@ -305,15 +323,28 @@ func c15Start(p *c15Program) (*c15Run, error) {
 		return nil, err
 	}
 	r := &c15Run{n: n, peers: c15Peers()}
-	if err := rsAddPeers(n, rsGlobal{}, r.peers); err != nil {
-		return r, err
+	for i := range r.peers {
+		ap := rsApiPeer(rsGlobal{}, &r.peers[i])
+		if staleSource && i == 0 {
+			ap.GracefulRestart = &api.GracefulRestart{Enabled: true, RestartTime: 120}
+			for _, af := range ap.AfiSafis {
+				af.MpGracefulRestart = &api.MpGracefulRestart{Config: &api.MpGracefulRestartConfig{Enabled: true}}
+			}
+		}
+		if err := n.s.AddPeer(context.Background(), &api.AddPeerRequest{Peer: ap}); err != nil {
+			return r, err
+		}
 	}
 	if err := r.setPolicy(p); err != nil {
 		return r, err
 	}
 	n.settle()
 	for i := range r.peers {
-		ss, _, err := n.establish(r.peers[i].def(), rsOpenSpec(&r.peers[i]))
+		spec := rsOpenSpec(&r.peers[i])
+		if staleSource && i == 0 {
+			spec.GR = &simGR{Time: 300, Families: []uint32{uint32(bgp.RF_IPv4_UC)<<1 | 1, uint32(bgp.RF_IPv6_UC)<<1 | 1}}
+		}
+		ss, _, err := n.establish(r.peers[i].def(), spec)
 		if err != nil {
 			return r, fmt.Errorf("peer %d: %w", i, err)
 		}
@@ -421,7 +452,7 @@ func runC15(t *testing.T) func(c c15Case, st *verifkit.Stats) *verifkit.Failure 
 		var hist []string
 		// ---- history run ----
 		if f := simRun(t, func() *verifkit.Failure {
-			r, err := c15Start(&c.Old)
+			r, err := c15Start(&c.Old, c.StaleSource)
 			if r != nil && r.n != nil {
 				defer r.n.stop()
 			}
@@ -436,11 +467,32 @@ func runC15(t *testing.T) func(c c15Case, st *verifkit.Stats) *verifkit.Failure 
 				r.announce(rt)
 			}
 			r.n.settle()
+			if c.StaleSource {
+				r.sess[0].close()
+				r.n.settle()
+				r.logf("-- source 0 lost (graceful restart: its routes are stale) --")
+			}
 			if _, f := r.collect(); f != nil {
 				return f
 			}
-			r.logf("-- policy changed --")
-			if err := r.setPolicy(&c.New); err != nil {
+			r.logf("-- policy changed (incremental=%v) --", c.Incremental)
+			if c.Incremental {
+				for i, es := range c.New.PrefixSets {
+					extra := es[len(c.Old.PrefixSets[i]):]
+					ds := &api.DefinedSet{DefinedType: api.DefinedType_DEFINED_TYPE_PREFIX, Name: fmt.Sprintf("ps%d", i)}
+					for _, e := range extra {
+						pfx, rng, _ := strings.Cut(e, " ")
+						ap := &api.Prefix{IpPrefix: pfx, MaskLengthMin: uint32(netip.MustParsePrefix(pfx).Bits()), MaskLengthMax: uint32(netip.MustParsePrefix(pfx).Bits())}
+						if rng != "" {
+							fmt.Sscanf(rng, "%d..%d", &ap.MaskLengthMin, &ap.MaskLengthMax)
+						}
+						ds.Prefixes = append(ds.Prefixes, ap)
+					}
+					if err := r.n.s.AddDefinedSet(context.Background(), &api.AddDefinedSetRequest{DefinedSet: ds, Replace: false}); err != nil {
+						return verifkit.Failf("setup", "AddDefinedSet: %v", err)
+					}
+				}
+			} else if err := r.setPolicy(&c.New); err != nil {
 				return verifkit.Failf("setup", "history run, new policy: %v", err)
 			}
 			for _, op := range c.Concurrent {
@@ -478,7 +530,7 @@ func runC15(t *testing.T) func(c c15Case, st *verifkit.Stats) *verifkit.Failure 
 		// ---- fresh run under the new policy ----
 		var fresh *c15Result
 		if f := simRun(t, func() *verifkit.Failure {
-			r, err := c15Start(&c.New)
+			r, err := c15Start(&c.New, c.StaleSource)
 			if r != nil && r.n != nil {
 				defer r.n.stop()
 			}
@@ -496,6 +548,10 @@ func runC15(t *testing.T) func(c c15Case, st *verifkit.Stats) *verifkit.Failure 
 				}
 			}
 			r.n.settle()
+			if c.StaleSource {
+				r.sess[0].close()
+				r.n.settle()
+			}
 			var f *verifkit.Failure
 			fresh, f = r.collect()
 			return f
@@ -517,6 +573,12 @@ func runC15(t *testing.T) func(c c15Case, st *verifkit.Stats) *verifkit.Failure 
 			st.Label("concurrent-route-changes")
 		}
 		st.Label(fmt.Sprintf("reset-kind-%d", c.Reset))
+		if c.Incremental {
+			st.Label("incremental-defined-set-change")
+		}
+		if c.StaleSource {
+			st.Label("stale-source")
+		}
 		return nil
 	}
 }
